@@ -231,6 +231,14 @@ func runMinimize(t *testing.T) {
 	p := props[f.Spec.Property]
 	c := &DriveCtx{T: t, P: p, deadline: time.Now().Add(time.Hour), maxFound: 1000}
 	m := &minimiser{c: c, sig: f.Viol.Sig(), max: envInt("VERIF_MIN_EXECS", 2000)}
+	startWatchdog(func(sp *RunSpec, secs int) {
+		fmt.Println("MINIMIZE " + string(mustJSON(J{"ok": false, "reason": "a candidate hung; hangs are not minimised"})))
+		os.Exit(0)
+	})
+	if f.Hang {
+		fmt.Println("MINIMIZE " + string(mustJSON(J{"ok": false, "reason": "hangs are not minimised"})))
+		return
+	}
 	if _, ok := m.fails(f.Spec); !ok {
 		fmt.Println("MINIMIZE " + string(mustJSON(J{"ok": false, "reason": "original does not reproduce in this process"})))
 		return
